@@ -563,6 +563,10 @@ class DotGeneralPlugin(PrimitiveLeafPlugin):
         rhs_rank = len(rhs_shape)
         if rhs_contract_axis not in (0, rhs_rank - 1):
             return False
+        # The lhs may be contracted over axis 0 as well (e.g. the transpose rule
+        # of a matrix product emits dimension_numbers (([0], [0]), ...)): Gemm
+        # then has to read it transposed.
+        gemm_attrs: dict[str, int] = {"transA": 1} if lhs_contract[0] == 0 else {}
 
         transpose_rhs = rhs_contract_axis == rhs_rank - 1
         rhs_input = rhs_val
@@ -598,6 +602,7 @@ class DotGeneralPlugin(PrimitiveLeafPlugin):
             alpha=1.0,
             beta=0.0,
             _outputs=[desired_name],
+            **gemm_attrs,
         )
 
         _stamp_type_and_shape(result, out_shape)
